@@ -10,6 +10,7 @@
    order); the former witnesses corpus/fun/c15-wt-instance-order*.sc are regression inputs now. *)
 From Coq Require Import List String Bool Permutation.
 From SCC Require Import Lang.FunSyn Model.Check Sem.FunTyping Sem.FunErase Proof.CheckWitness Proof.CheckAnn Proof.TypingReject Proof.CheckMono Proof.CheckProof.
+From SCC Require Import Proof.PrintInj Proof.CheckPoly Proof.CheckPolySound Proof.CheckPolyProg Proof.CheckPolyProgC Proof.CheckPolyProof.
 Import ListNotations.
 
 (* Soundness, full statement: `forall p q, check p = COk q -> has_type p`.  False: an ill-formed
@@ -213,3 +214,60 @@ Theorem C15_reject_duplicate_constructor : forall l1 n ps c1 k sg1 c2 sg2 c3 l2,
   has_type_b (mkfprog (l1 ++ FDData (mkfdata n ps (c1 ++ mkfctor k sg1 :: c2 ++ mkfctor k sg2 :: c3)) :: l2)) = false.
 Proof. exact reject_duplicate_constructor. Qed.
 Print Assumptions C15_reject_duplicate_constructor.
+
+(* ====================================================================================================
+   Round 2: the polymorphic fragment (type parameters, type arguments, instances keyed by printed names)
+   ==================================================================================================== *)
+
+(* ---------- soundness and completeness for programs WITH type parameters ----------
+   Two boolean guards:
+     [prog_names_ok p]  (Proof/CheckPolyProg.v)  every type / constructor / destructor name occurring in p
+        is free of the characters "[" "]" "," " " and is not "i64".  True of every parsed program (the lexer's
+        classes [A-Z][a-zA-Z0-9_]* and [a-z][a-zA-Z0-9_]*, "i64" being a keyword); needed because instances are
+        keyed by PRINTED names: without it a type may be NAMED like an instance ([C15_names_guard_needed]).
+     [decl_types_wf ts] (Proof/CheckPolyProg.v)  the types written inside the data/codata declarations are
+        well-formed: exactly the part of [decls_ok] that the checker does not establish (known finding
+        C15-lazy-declaration-types, [C15_check_sound_refuted]); implied by [has_type].
+   GAP to the full statement: none other than these guards. *)
+Theorem C15_check_sound_poly_partial : forall p q,
+  prog_names_ok p = true -> decl_types_wf (tdecls (fpdecls p)) = true -> check p = COk q -> has_type p.
+Proof. exact check_sound_poly. Qed.
+Print Assumptions C15_check_sound_poly_partial.
+Theorem C15_check_complete_poly_partial : forall p,
+  prog_names_ok p = true -> has_type p -> exists q, check p = COk q.
+Proof. exact check_complete_poly'. Qed.
+Print Assumptions C15_check_complete_poly_partial.
+(* for identifier-like names the checker accepts exactly the programs that satisfy the typing rules
+   with the declaration types checked by head name only *)
+Theorem C15_check_exact_poly_partial : forall p, prog_names_ok p = true ->
+  (has_type p <-> (exists q, check p = COk q) /\ decl_types_wf (tdecls (fpdecls p)) = true).
+Proof. exact check_exact_poly. Qed.
+Print Assumptions C15_check_exact_poly_partial.
+Theorem C15_check_order_independent_poly_partial : forall p p', prog_names_ok p = true -> prog_names_ok p' = true ->
+  decl_types_wf (tdecls (fpdecls p)) = true -> decl_types_wf (tdecls (fpdecls p')) = true ->
+  (has_type p <-> has_type p') -> ((exists q, check p = COk q) <-> (exists q, check p' = COk q)).
+Proof. exact check_order_independent_poly. Qed.
+Print Assumptions C15_check_order_independent_poly_partial.
+(* the checker before fix d524b1f was sound under the same guards, so the fix only added acceptances *)
+Theorem C15_regression_before_fix_sound_poly_partial : forall p q,
+  prog_names_ok p = true -> decl_types_wf (tdecls (fpdecls p)) = true -> check_before_fix p = COk q ->
+  has_type p /\ exists q', check p = COk q'.
+Proof.
+  intros p q Hn Hw H. split; [eapply check_before_fix_sound_poly; eassumption|].
+  eapply check_before_fix_accepts_check_accepts_poly; eassumption.
+Qed.
+Print Assumptions C15_regression_before_fix_sound_poly_partial.
+(* the guards are satisfiable by a program with nested instances at several types, which is well-typed
+   and accepted (corpus/fun/c15-poly-nested-instances.sc) ... *)
+Example C15_poly_guards_satisfiable :
+  prog_names_ok p_poly = true /\ decl_types_wf (tdecls (fpdecls p_poly)) = true /\ has_type p_poly
+  /\ exists q, check p_poly = COk q
+       /\ map fdaname (fcpdata q) = ["List[List[i64]]"; "List[i64]"; "Pair[List[i64], i64]"; "Pair[i64, List[i64]]"]%string
+       /\ map fcoaname (fcpcodata q) = ["Fun[i64, i64]"]%string.
+Proof. exact (conj p_poly_names_ok (conj p_poly_decl_types_wf (conj p_poly_well_typed p_poly_accepted))). Qed.
+Print Assumptions C15_poly_guards_satisfiable.
+(* ... and the name guard cannot be dropped (a syntax tree whose type is literally named "List[i64]") *)
+Theorem C15_names_guard_needed :
+  ~ (forall p q, decl_types_wf (tdecls (fpdecls p)) = true -> check p = COk q -> has_type p).
+Proof. exact check_sound_without_names_guard_refuted. Qed.
+Print Assumptions C15_names_guard_needed.
